@@ -39,7 +39,11 @@ Print Assumptions C13_fetch_from_zero.
    is the same for every two power-on states, for every amount of fuel (loop iterations), provided the binary and input
    are well-behaved: the ISA trace from the loaded words is defined, stays in range, a READ does not overwrite its own
    SVC, the first instruction is not a system call, and no word outside the loaded region is read before it is written
-   (non-image memory differs between power-on states). *)
+   (non-image memory differs between power-on states).
+   KNOWN FINDINGS, see known_findings.json: "the first instruction is not a system call" (kind first-instruction-svc:
+   the request of the instruction at byte 0 is never sampled -- for every power-on state alike, so seed independence
+   itself is not affected, but the common result is not the ISA's; tools/c13.py exhibits it) and the READ clause
+   (kind read-overwrites-own-svc, exhibited by tools/c03.py and tools/c06.py). *)
 Theorem C13_seed_independent : forall (fuel : nat) (i1 i2 : init) (file : list Z) (inp : inputs),
   bytes_ok file -> well_behaved (Z.of_nat (List.length (loaded_words file))) (loaded_words file) inp ->
   obs (run Current RtlHex.design fuel 0 (power_on i1 file) inp []) = obs (run Current RtlHex.design fuel 0 (power_on i2 file) inp []).
